@@ -10,6 +10,9 @@
 (*     (RejectedPublishEnqueuesNothing, MPUB all-or-nothing);                                     *)
 (*   - daemon and bystander are alive afterwards.                                                 *)
 (* Streams the classifier cannot name ("Opaque") only have to leave daemon and bystander alive.   *)
+(* The name class "dying" (a topic whose deletion is parked half-way by the replayer) needs a      *)
+(* prepared daemon state: binding B never generates it and the classifier never names it, so no    *)
+(* recorded Cmd carries it; those rows are exercised by binding A (the replayer) only.             *)
 EXTENDS NsqdTcp, Json
 
 Trace == ndJsonDeserialize("trace.ndjson")
